@@ -630,16 +630,25 @@ impl PG<'_> {
             }
             3 => list_json(&[atom_json(&[21]), q(big(self.r)), q(big(self.r))]),
             4 => {
-                // path lookups with 7 / 15 / 23 steps: environment must be deep; also leading-zero paths
-                let bits = *self.r.pick(&[6u32, 7, 8, 14, 15, 16, 22, 23, 24]);
-                let v: u32 = (1 << bits) | (self.r.next() as u32 & ((1 << bits) - 1) & 0x0101_0101);
+                // path lookups with 6..26 steps into an environment BUILT FOR THE PATH (so the lookup succeeds):
+                // (a (q . PATH) (q . ENV)); canonical paths of 7/15/23 steps need a leading zero byte
+                let bits = *self.r.pick(&[6u32, 7, 8, 14, 15, 16, 22, 23, 24, 25]);
+                let v: u32 = (1 << bits) | (self.r.next() as u32 & ((1 << bits) - 1));
                 let b = v.to_be_bytes();
                 let skip = b.iter().take_while(|x| **x == 0).count();
                 let mut p = b[skip..].to_vec();
-                if p[0] & 0x80 != 0 || self.r.chance(1, 6) {
+                if p[0] & 0x80 != 0 || self.r.chance(1, 8) {
                     p.insert(0, 0);
                 }
-                atom_json(&p)
+                // environment: follow the bits from the least significant one; the last step may end one short (PathIntoAtom)
+                let short = self.r.chance(1, 10);
+                let mut env = atom_json(&[0x2a, 0x2b]);
+                let steps = if short { bits - 1 } else { bits };
+                for k in (0..steps).rev() {
+                    let other = atom_json(&[(k % 200) as u8 + 1]);
+                    env = if (v >> k) & 1 == 1 { json!({"f": other, "r": env}) } else { json!({"f": env, "r": other}) };
+                }
+                list_json(&[atom_json(&[2]), q(atom_json(&p)), q(env)])
             }
             5 => {
                 let n = 2 + self.r.below(3) as usize;
@@ -1444,7 +1453,17 @@ fn main() {
             }
             // C23: native sha256tree vs the ChiaLisp program
             "C23" => {
-                let tree = rand_tree(&mut r, 1 + (case % 24) as usize, 12, 25);
+                let mut tree = rand_tree(&mut r, 1 + (case % 24) as usize, 12, 25);
+                if case % 3 == 0 {
+                    // large atoms: 65 / 411 / 512 / 700 / 2000 bytes, alone or inside a small tree
+                    let big_len = *r.pick(&[63usize, 64, 65, 300, 411, 512, 700, 2000]);
+                    let big = atom_json(&r.bytes(big_len));
+                    tree = match r.below(3) {
+                        0 => big,
+                        1 => json!({"f": big, "r": tree}),
+                        _ => json!({"f": tree, "r": {"f": big.clone(), "r": big}}),
+                    };
+                }
                 let f = 0x0400 | if case % 2 == 0 { 0x2000 } else { 0 };
                 let native = list_json(&[atom_json(&[63]), q(tree.clone())]);
                 let cl = sexp(CHIALISP_SHATREE).expect("chialisp program");
